@@ -20,7 +20,9 @@ PID = 'C08'
 RULE = ("(a) all skeletons: construct in {if x{1,2,3 arms} x{else,no else}, match x{1,2,3 arms} x{default,none}, for-break "
         "x{2,3 items} x{else,none}} x definition site (any arm / else / before, plain or inside an inner if/else) x use site "
         "(after, any arm, inner if of the defining arm) x {plain process, coroutine with an await between definition and use}; "
-        "(b) seeded C01/C03/C04 designs under the poison monitor.  distinct_nontrivial = distinct skeleton signatures "
+        "(b) seeded C01/C03/C04 designs under the poison monitor; (c) signals constructed inside coroutines {no loop, while cond, while "
+        "True..break} x {before/after an await} x read {same state, after 1/2 awaits, behind the loop} x {updated in between} x "
+        "{checked, maybe_uninitialized}: poison on the alias variable, both flag settings must behave alike.  distinct_nontrivial = distinct skeleton signatures "
         "whose verdict was decided (rejected as required, or accepted and executed over all inputs) + distinct generated "
         "designs executed with >=1 temporary poisoned.")
 ASSUMPTIONS = ["the back end's declaration table identifies compiler temporaries (they are the poisoned variables)",
